@@ -9,7 +9,7 @@ import lib
 from lib import zlit, vlist, vopt
 
 LEVEL = "proof"
-UNITS = []
+UNITS = ["GenPlaceShape"]
 
 CONFIGS = ["seq", "seq_custom", "bf", "hilbert", "hilbert_nobf", "rcm", "rand", "rand_real", "sa_c", "sa_py",
            "sa_initial"]
@@ -183,8 +183,9 @@ def gen_case(rng, idx):
 
 def gen_large(rng):
     """A few LARGE feasible unit problems (recursion depth, quadratic blow-ups): a 34x30 machine with a sparse
-    netlist and a 1200-vertex chain on a 36x36 machine.  Judged by the oracle on the outputs only -- the model is
-    NOT evaluated on these (association lists of this size are too slow under vm_compute)."""
+    netlist and a 1200-vertex chain on a 36x36 machine.  Judged by the oracle and by the verified one-pass
+    checker check_placement_fast evaluated in Coq on the outputs; the placer MODELS are not run on these (association
+    lists of this size are too slow under vm_compute)."""
     cases = []
     w, h = 34, 30
     dead = [[rng.randrange(w), rng.randrange(h)] for _ in range(12)]
@@ -552,14 +553,14 @@ def model_exprs(c, r):
             "NOV" if c["vorder"] is None else "(Some %s)" % zl(c["vorder"]),
             "NOC" if c["corder"] is None else "(Some %s)" % cl(c["corder"])))
     if aux.get("bf_v") is not None:
-        corr("bf", "seq_place vr m cs (Some %s) NOC" % zl(aux["bf_v"]))
+        corr("bf", "bf_place vr m cs %s NOC" % zl(aux["bf_v"]))
     if aux.get("hil_c") is not None:
         ex.append(("corr:hilbert_chip_order", "chips_eqb (hilbert_chip_order m) %s" % cl(aux["hil_c"])))
-        corr("hilbert_nobf", "seq_place vr m cs NOV (Some (hilbert_chip_order m))")
+        corr("hilbert_nobf", "hilbert_place vr m cs NOV")
         if aux.get("hil_v") is not None:
-            corr("hilbert", "seq_place vr m cs (Some %s) (Some (hilbert_chip_order m))" % zl(aux["hil_v"]))
+            corr("hilbert", "hilbert_place vr m cs (Some %s)" % zl(aux["hil_v"]))
     if aux.get("rcm_v") is not None and aux.get("rcm_c") is not None:
-        corr("rcm", "seq_place vr m cs (Some %s) (Some %s)" % (zl(aux["rcm_v"]), cl(aux["rcm_c"])))
+        corr("rcm", "rcm_place vr m cs %s %s" % (zl(aux["rcm_v"]), cl(aux["rcm_c"])))
     # the orders computed by the real wrappers satisfy the premises of the theorems (per instance)
     for name in ("bf_v", "hil_v", "rcm_v"):
         if aux.get(name) is not None:
@@ -692,11 +693,31 @@ def run(chk, args):
     # model: correspondence + validator, evaluated in Coq
     if chk.model_ok:
         try:
+            big = [(c, r) for c, r in zip(cases, results) if c.get("mode") == "large"]
+            import concurrent.futures
+            pool = concurrent.futures.ThreadPoolExecutor(max_workers=4)
+            big_jobs = []
+            for c, r in big:
+                vres, mach, cs_ = coq_problem(c)
+                oks = [(cfg, o) for cfg, o in r["out"].items() if o[0] == "ok"]
+                if not oks:
+                    continue
+                e = "let vr : vresources := %s in let m := %s in let cs := %s in [%s]" % (
+                    vres, mach, cs_, "; ".join("check_placement_fast vr m cs %s" % coq_result(o)[4:-1] for _, o in oks))
+                big_jobs.append((c, oks, pool.submit(chk.coq_eval, HEADER, [e], 1, 900, "large%d" % c["idx"])))
             small = [(c, r) for c, r in zip(cases, results) if c.get("mode") != "large"]
             cases_m, results_m = [c for c, _ in small], [r for _, r in small]
             labelled = [coq_case(c, r) for c, r in small]
             vals = chk.coq_eval(HEADER, [e for _, e in labelled], shard=40 if chk.tier == "quick" else 150,
                                 timeout=1500)
+            for c, oks, fut in big_jobs:
+                bs = fut.result()[0]
+                for (cfg, o), b in zip(oks, bs):
+                    chk.oblige("valid-large:%s on case %d (check_placement_fast in Coq)" % (cfg, c["idx"]), b,
+                               "check_placement_fast = false")
+                    if not b:
+                        chk.broken[-1]["replay"] = dict(case=c, config=cfg, observed=o)
+            pool.shutdown()
             agree = {}
             bad = 0
             for c, r, (labels, _), v in zip(cases_m, results_m, labelled, vals):
